@@ -362,7 +362,7 @@ class Engine:
                 # attribute of an optional: must be some
                 self.require(st, "safe.none", n, ty.sort().is_some(base.t), "AttributeError")
                 return self.getattr(V(ty.t, ty.sort().v(base.t)), attr, n, st)
-            if isinstance(ty, (TObj, TData, TRec)):
+            if isinstance(ty, (TObj, TData, TRec, TEnum)):
                 k = self.reg.lookup_method(ty.name, attr)
                 if k is not None:
                     if getattr(k, "is_property", False):
@@ -440,6 +440,11 @@ class Engine:
             pass
         finally:
             del st.guards[saved:]
+        # `a or b` / `a and b` with two operands whose types unify (same type, or T / Optional[T] / None): a conditional VALUE, no path split
+        if len(n.values) == 2:
+            r = self._boolop_value(n, st, is_and)
+            if r is not None:
+                return r
         # general python semantics: value of the deciding operand
         last = None
         for i, sub in enumerate(n.values):
@@ -453,6 +458,44 @@ class Engine:
             if (not is_and) and t:
                 return v
         return last
+
+    def _boolop_value(self, n, st, is_and):
+        a = self.ev(n.values[0], st)
+        if not isinstance(a, V) or a.ty is TNone:
+            return None
+        try:
+            ta = self.truthy(a, n.values[0])
+        except OutOfSubset:
+            return None
+        saved = len(st.guards)
+        st.guards.append(ta if is_and else z3.Not(ta))
+        try:
+            b = self.ev(n.values[1], st)
+        finally:
+            del st.guards[saved:]
+        if not isinstance(b, V):
+            return None
+        first, second = a, b            # `a and b`: b if truthy(a) else a ;  `a or b`: a if truthy(a) else b
+        def unify(x, y):
+            if x.ty == y.ty and x.ty is not TNone:
+                return x, y
+            if isinstance(x.ty, TOpt) and x.ty.t == y.ty:
+                return x, V(x.ty, x.ty.sort().some(y.t))
+            if isinstance(y.ty, TOpt) and y.ty.t == x.ty:
+                return V(y.ty, y.ty.sort().some(x.t)), y
+            if isinstance(x.ty, TOpt) and y.ty is TNone:
+                return x, V(x.ty, x.ty.sort().none)
+            if isinstance(y.ty, TOpt) and x.ty is TNone:
+                return V(y.ty, y.ty.sort().none), y
+            if y.ty is TNone and not isinstance(x.ty, TOpt) and x.ty is not TNone:
+                oty = TOpt(x.ty)
+                return V(oty, oty.sort().some(x.t)), V(oty, oty.sort().none)
+            return None
+        u = unify(first, second)
+        if u is None:
+            return None
+        x, y = u
+        return V(x.ty, z3.If(ta, y.t, x.t) if is_and else z3.If(ta, x.t, y.t))
 
     def ev_UnaryOp(self, n, st):
         v = self.ev(n.operand, st)
@@ -1735,6 +1778,10 @@ class Engine:
 
     def ex_Raise(self, s, st):
         exc = "Exception"
+        if s.exc is None:
+            cur = st.env.get("__current_exception__")
+            if isinstance(cur, PyConst):
+                exc = cur.name[4:]         # bare `raise` inside a handler re-raises the exception being handled
         if s.exc is not None:
             e = s.exc
             if isinstance(e, ast.Call):
@@ -1820,6 +1867,7 @@ class Engine:
             if out is not None and out[0] == "raise":
                 h = self.find_handler(s.handlers, out[1])
                 if h is not None:
+                    st2.env["__current_exception__"] = PyConst("exc:" + out[1])
                     if h.name:
                         st2.env[h.name] = PyConst("exc:" + out[1])
                     results.extend(self.exec_block(h.body, st2))
